@@ -247,6 +247,26 @@ CLAIMED['C06'] = dict(
           'runs and exercised natively.'),
     design='DESIGN.md 4/C06')
 
+CLAIMED['C05'] = dict(
+    category='other',
+    text=('Reduced scope.  Solver-decided: static rules triggered by the '
+          'VALUE of a literal (DIM bounds, arrays that do not fit a frame, '
+          'CONST overflow / division by zero, negative constant bounds): '
+          'the real compiler runs symbolically on the parsed template at '
+          'three configurations and rejects exactly the values the rule '
+          'rejects, with its category, at a position on the line of the '
+          'construct; the literal rules (NumericLiteral.parse on every '
+          'decimal digit string up to 8/10 digits); position plumbing on '
+          'symbolic text.  NOT solver-decided (native enumeration, said so '
+          'in the evidence): 28 type / label / arity / rank / declaration '
+          '/ block-structure faults injected at 7 kinds of site x 6 '
+          'configurations.'),
+    note=('The property quantifies over programs x fault sites, i.e. over '
+          'source texts, which go through pyparsing and cannot be made '
+          'symbolic: "every rule at every site of every program" is NOT '
+          'claimed.'),
+    design='DESIGN.md A.5 and 4/C05')
+
 NOT_APPLICABLE = {
     'C14': ('respelling invariance quantifies over source texts; the only '
             'code that distinguishes spellings is the pyparsing grammar, '
